@@ -77,6 +77,11 @@ pub fn ev_name(e: Ev) -> String {
 
 pub fn configs(tier: Tier) -> Vec<String> {
     let mut v = vec![];
+    if !cfg!(miri) {
+        // large backing arrays: a user defined array of 384 elements, and the largest built-in one
+        v.push("lock=local,shared=0,buf=user,cap=384,payload=val".to_string());
+        v.push("lock=local,shared=0,buf=huge,cap=65536,payload=val".to_string());
+    }
     for lock in ["local", "sync", "spin"] {
         for shared in 0..2 {
             for buf in ["array", "fixed", "growing"] {
@@ -117,6 +122,14 @@ pub fn scenarios(cfg: &str) -> Vec<Vec<Ev>> {
     let e = Ev::new;
     let cap = cfg_num(cfg, "cap", 0);
     let mut v = vec![];
+    if cap > 100 {
+        // fill the channel completely, one more try_send must be Full, drain half, refill, drain in order
+        let mut s = vec![e(TRY_SEND, 0, 0); cap as usize + 1];
+        s.extend(vec![e(TRY_RECV, 0, 0); cap as usize / 2 + 2]);
+        s.extend(vec![e(TRY_SEND, 0, 0); cap as usize / 2 + 3]);
+        s.extend(vec![e(TRY_RECV, 0, 0); cap as usize + 2]);
+        return vec![s];
+    }
     if cap == 0 {
         // rendezvous: two parked senders, cancel the older one, receiver takes the younger
         v.push(vec![e(SEND_CREATE, 0, 0), e(SEND_POLL, 0, 0), e(SEND_CREATE, 1, 0), e(SEND_POLL, 1, 0), e(SEND_POLL, 1, 1), e(SEND_DROP, 0, 0), e(RECV_CREATE, 0, 0), e(RECV_POLL, 0, 0), e(SEND_POLL, 1, 0)]);
@@ -418,6 +431,8 @@ fn make_api<M: RawMutex + 'static, P: Payload>(cfg: &str) -> Box<dyn ChanApi<M, 
         (false, "array", 2) => b::<M, P, ArrayBuf<P, [P; 2]>>(2, false, false),
         (false, "array", 3) => b::<M, P, ArrayBuf<P, [P; 3]>>(3, false, false),
         (false, "array", _) => b::<M, P, ArrayBuf<P, [P; 5]>>(5, false, false),
+        (false, "user", _) => b::<M, P, ArrayBuf<P, crate::ds::ringbuf::Arr384<P>>>(384, false, false),
+        (false, "huge", _) => b::<M, P, ArrayBuf<P, [P; 65536]>>(65536, false, false),
         (false, "fixed", c) => b::<M, P, FixedHeapBuf<P>>(c, false, c > 0),
         (false, _, c) => b::<M, P, GrowingHeapBuf<P>>(c, true, true),
         (true, "array", 0) => s::<M, P, ArrayBuf<P, [P; 0]>>(0, false, false),
@@ -487,10 +502,15 @@ impl<M: RawMutex + 'static, P: Payload> MpmcCore<M, P> {
     fn api_mut(&mut self) -> &mut Box<dyn ChanApi<M, P>> {
         self.api.as_mut().unwrap()
     }
+    fn big(&self) -> bool {
+        self.cap > 100
+    }
     fn new_tag(&mut self) -> u32 {
         let t = self.next_tag;
         self.next_tag += 1;
-        self.outstanding.push(t);
+        if !self.big() {
+            self.outstanding.push(t);
+        }
         t
     }
     fn buffered(&self) -> usize {
@@ -532,6 +552,9 @@ impl<M: RawMutex + 'static, P: Payload> MpmcCore<M, P> {
 
     /// A tag left the harness' world: it must have been dropped exactly once by now.
     fn expect_dropped(&mut self, ctx: &mut Ctx, tag: u32, why: &'static str) {
+        if self.big() {
+            return;
+        }
         let d = payload::drops(tag);
         ctx.check("C08", "value-dropped-exactly-once-when-discarded", true, d == 1, || format!("tag {} has been dropped {} times after {}", tag, d, why));
         self.outstanding.retain(|t| *t != tag);
@@ -582,6 +605,9 @@ impl<M: RawMutex + 'static, P: Payload> MpmcCore<M, P> {
         self.model_close();
         let tags: Vec<u32> = self.order.drain(..).map(|e| e.0).collect();
         for t in tags {
+            if t >= payload::UNTRACKED {
+                continue;
+            }
             let d = payload::drops(t);
             ctx.check("C11", "last-receiver-drop-discards-buffered-values-immediately", true, d == 1, || {
                 format!("buffered tag {} has drop count {} right after the last receiver handle was dropped", t, d)
@@ -720,7 +746,9 @@ impl<M: RawMutex + 'static, P: Payload> MpmcCore<M, P> {
         let mut f = Fp::new();
         f.add(self.closed as u64);
         f.add(self.buffered() as u64);
-        for e in &self.order {
+        f.add(self.order.len().min(64) as u64);
+        // only parked entries (at most one per send slot) carry information beyond the count
+        for e in self.order.iter().skip(self.buffered()) {
             f.add(e.1.map_or(77, |s| s as u64));
         }
         for p in &self.phase {
@@ -738,9 +766,10 @@ impl<M: RawMutex + 'static, P: Payload> MpmcCore<M, P> {
 
 impl<M: RawMutex + 'static, P: Payload> MpmcCore<M, P> {
     pub fn new(cfg: &str, k: usize, bounded: bool) -> Self {
-        let base = payload::reserve(if bounded { 512 } else { 4100 });
         let api = make_api::<M, P>(cfg);
         let cap = api.cap();
+        let big = cap > 100;
+        let base = if big { payload::UNTRACKED } else { payload::reserve(if bounded { 512 } else { 4100 }) };
         let mut c = MpmcCore {
             api: Some(api),
             cap,
@@ -767,7 +796,7 @@ impl<M: RawMutex + 'static, P: Payload> MpmcCore<M, P> {
     }
 
     pub fn enabled(&self, out: &mut Vec<Ev>) {
-        let tags_left = ((self.next_tag - self.base) as usize) < if cfg!(miri) { 300 } else if self.bounded { 500 } else { 4000 };
+        let tags_left = self.cap > 100 || ((self.next_tag - self.base) as usize) < if cfg!(miri) { 300 } else if self.bounded { 500 } else { 4000 };
         let has_tx = self.api().n_tx() > 0;
         let has_rx = self.api().n_rx() > 0;
         let mut created = false;
@@ -1213,7 +1242,7 @@ impl<M: RawMutex + 'static, P: Payload> MpmcCore<M, P> {
         let left = std::mem::take(&mut self.outstanding);
         ctx.check("C08", "every-value-accounted-for-at-the-end", true, left.is_empty(), || format!("tags {:?} are neither received, handed back nor dropped", left));
         // global audit over every tag of this history
-        for t in self.base..self.next_tag {
+        for t in self.base..(if self.base >= payload::UNTRACKED { self.base } else { self.next_tag }) {
             let d = payload::drops(t);
             ctx.check("C08", "every-value-dropped-exactly-once-overall", true, d == 1, || format!("tag {} was dropped {} times over the whole history", t, d));
         }
